@@ -60,3 +60,5 @@ operations_registry = {
 
 for name, cls in operations_registry.items():
     register_class(cls, name)
+
+register_class(CompositeOperation, "CompositeOperation")
